@@ -130,6 +130,9 @@ type runner[C any] struct {
 	fuzz    bool
 	sinceFl int
 	lastFl  time.Time
+
+	inflightF   *os.File
+	inflightOff bool
 }
 
 func envInt(name string, def int64) int64 {
@@ -230,6 +233,30 @@ func (r *runner[C]) key(c C) (string, []byte) {
 	return string(buf), buf
 }
 
+// inflight records the case about to be judged in $VERIF_OUT/inflight.json, so that the driver can
+// attribute a death of the whole process (a fatal runtime error such as a stack overflow cannot be
+// recovered) to the input that caused it and replay that input in a fresh process.
+func (r *runner[C]) inflight(raw []byte) {
+	if r.fuzz || r.inflightOff {
+		return
+	}
+	if r.inflightF == nil {
+		out := os.Getenv("VERIF_OUT")
+		if out == "" {
+			r.inflightOff = true
+			return
+		}
+		f, err := os.OpenFile(filepath.Join(out, "inflight.json"), os.O_CREATE|os.O_WRONLY|os.O_TRUNC, 0o644)
+		if err != nil {
+			r.inflightOff = true
+			return
+		}
+		r.inflightF = f
+	}
+	_ = r.inflightF.Truncate(0)
+	_, _ = r.inflightF.WriteAt(raw, 0)
+}
+
 // eval runs one case; it returns the failure text ("" when the case passed, was
 // skipped or is an instance of an open known finding).
 func (r *runner[C]) eval(c C) (fail string) {
@@ -238,6 +265,8 @@ func (r *runner[C]) eval(c C) (fail string) {
 	if r.p.Reset != nil {
 		r.p.Reset()
 	}
+	k, raw := r.key(c)
+	r.inflight(raw)
 	var res Result
 	func() {
 		defer func() {
@@ -252,7 +281,6 @@ func (r *runner[C]) eval(c C) (fail string) {
 		return ""
 	}
 	r.rep.Evaluations++
-	k, raw := r.key(c)
 	for _, cl := range res.Classes {
 		r.rep.Classes[cl]++
 	}
